@@ -5,8 +5,9 @@ import json
 import sys
 
 pid, wt, n = sys.argv[1], sys.argv[2], int(sys.argv[3]) if len(sys.argv) > 3 else 2
-round2 = len(sys.argv) > 4 and sys.argv[4] in ("round2", "round3")
-round3 = len(sys.argv) > 4 and sys.argv[4] == "round3"
+round2 = len(sys.argv) > 4 and sys.argv[4] in ("round2", "round3", "round4")
+round3 = len(sys.argv) > 4 and sys.argv[4] in ("round3", "round4")
+round4 = len(sys.argv) > 4 and sys.argv[4] == "round4"
 for l in open("/verif/properties.jsonl"):
     p = json.loads(l)
     if p["id"] == pid:
@@ -26,6 +27,13 @@ if round3:
               "the logger argument, gradient_steps > 1, several updates per step, observation/action dimensions > 1, dtype (float64 "
               "observations, integer actions), batch dimension handling ((N,) vs (N,1)), optional arguments left at None vs passed "
               "explicitly, routines other than the most popular ones among the relevant files.")
+if round4:
+    extra += (" A third round is done too; also used already: field/keyword order, rollout arrays flattened in the wrong order, "
+              "successors rebuilt by shifting, multi-axis Q-tables, last-layer activation flags, importance-weight renormalisation, "
+              "uninitialised memory, unseeded default generators, logger-dependent episode counters, task-embedding renormalisation, "
+              "misplaced stop_gradient, discount applied before the baseline, dropped action bias, noise shared over the batch. Think "
+              "about what a reviewer would still wave through: numerically plausible rewrites that are only equal under an unstated "
+              "assumption, state that survives between two calls of the same routine, interactions between two optional features.")
 print(f"""You are given a git worktree of the Python repository mlaux1/rl-blox (a JAX/Flax toolbox of reinforcement-learning algorithms) at {wt}. Work ONLY inside {wt} (never touch /repo, never look at /verif). The package is installed in editable mode from another directory, so ALWAYS run python as `cd {wt} && PYTHONPATH={wt} JAX_PLATFORMS=cpu /venv/bin/python ...` and confirm once that `import rl_blox; print(rl_blox.__file__)` points into {wt}.
 
 Here is a semantic property that the library is supposed to satisfy:
